@@ -490,7 +490,8 @@ class Folder:
             if len(texts) != 1:
                 raise AssertionError("fold: instances of %s disagree on an internal reference: %s" % (wt.name, texts))
             segs = [self.leafpath[vals[0][1]][len(wt.inst[0][0])]] + list(vals[0][2])
-            step["args"][pname] = self.spell_ref(segs, vals[0][3], vals[0][4])
+            step["args"][pname] = self.spell_ref(segs, vals[0][3], vals[0][4],
+                                                 plain=any(len(v) > 5 and v[5] for v in vals))
             return
         if any(inside):
             raise AssertionError("fold: reference is internal for some instances of %s only" % wt.name)
@@ -503,7 +504,9 @@ class Folder:
             maxj += 1
         j = 0
         take_method = False
-        if len(methods) == 1:
+        # a receiver further down wraps this value in quotes ("%(p)s"/path:method): it has to arrive as a bare <...>
+        plain_req = any(len(v) > 5 and v[5] for v in vals)
+        if len(methods) == 1 and not plain_req:
             lim = min(maxj, npath) if not ch.chance(1, 3) else maxj
             j = ch.n(lim + 1)
             m = next(iter(methods))
@@ -518,18 +521,24 @@ class Folder:
         if take_method:
             suffix += ":" + next(iter(methods))
             self.labels.add("method-appended-to-forwarded-ref")
-        up = [("ref", v[1], tuple(v[2][:len(v[2]) - j]), None if take_method else v[3], min(v[4], len(v[2]) - j))
-              for v in vals]
+        quoted = j > 0 and not plain_req and ch.chance(1, 3)
+        up = [("ref", v[1], tuple(v[2][:len(v[2]) - j]), None if take_method else v[3], min(v[4], len(v[2]) - j),
+               bool(quoted or plain_req)) for v in vals]
         p = self.add_param(wt, pname, up)
-        step["args"][pname] = "%%(%s)s%s" % (p, suffix)
+        if quoted:
+            # the documented spelling for a parameter that holds a (partial) reference: "%(param)s"/path[:method]
+            step["args"][pname] = '"%%(%s)s"%s' % (p, suffix)
+            self.labels.add("ref-via-quoted-param")
+        else:
+            step["args"][pname] = "%%(%s)s%s" % (p, suffix)
         self.labels.add("ref-via-param")
 
-    def spell_ref(self, segs: List[str], method: Optional[str], nsteps: int) -> str:
-        """Text of a reference written in the workflow whose steps include segs[0]."""
+    def spell_ref(self, segs: List[str], method: Optional[str], nsteps: int, plain: bool = False) -> str:
+        """Text of a reference written in the workflow whose steps include segs[0]. plain: a bare <...>."""
         ch = self.ch
-        i = 1 + ch.n(len(segs))
+        i = len(segs) if plain else 1 + ch.n(len(segs))
         inside, outside = segs[:i], segs[i:]
-        style = ch.n(5)
+        style = 0 if plain else ch.n(5)
         if style == 3:
             txt = '"<%s>"' % "/".join(inside)
             self.labels.add("ref-form:quoted")
